@@ -1,23 +1,28 @@
 #!/bin/bash
 # revert_test.sh: for every "fixed:" entry of KNOWN_FINDINGS.txt, undo that fix in
-# /repo's working tree (reverse diff of the commit), run the quick check of its
-# property, and restore the tree.  The check must report a violation.
-cd /verif
+# a scratch worktree of /repo HEAD (reverse diff of the commit), run the quick check
+# of its property against that worktree (VERIF_REPO), and restore it.  The check must
+# report a violation.  /repo itself is not touched.  ONLY=<hash> EXTRA="<props>"
+cd ${VDIR:-/verif}
+WT=${WT:-/tmp/revert-wt}
+git -C /repo worktree remove --force $WT 2>/dev/null
+git -C /repo worktree add -q --detach $WT HEAD || exit 9
 grep '^fixed:' KNOWN_FINDINGS.txt | while read -r _ prop h rest; do
   prop=${prop#property=}
   [ -n "$ONLY" ] && [ "$ONLY" != "$h" ] && continue
-  git -C /repo diff --quiet || { echo "/repo dirty"; exit 9; }
-  git -C /repo diff $h $h~1 > /tmp/revfix.diff
-  if ! git -C /repo apply /tmp/revfix.diff 2>/dev/null; then
-    if ! git -C /repo apply -3 /tmp/revfix.diff >/dev/null 2>&1; then echo "$h $prop: REVERT-DOES-NOT-APPLY ($rest)" | cut -c1-150; git -C /repo reset -q --hard; continue; fi
-    git -C /repo reset -q
+  git -C /repo diff $h $h~1 > $WT.diff
+  if ! git -C $WT apply $WT.diff 2>/dev/null; then
+    if ! git -C $WT apply -3 $WT.diff >/dev/null 2>&1; then echo "$h $prop: REVERT-DOES-NOT-APPLY ($rest)" | cut -c1-150; git -C $WT reset -q --hard; continue; fi
+    git -C $WT reset -q
   fi
   props="$prop $EXTRA"
   res=""
   for p in $props; do
-    out=$(timeout 1500 ./check $p --tier quick 2>&1); rc=$?
+    out=$(VERIF_REPO=$WT timeout 1500 ./check $p --tier quick 2>&1); rc=$?
     if [ $rc -eq 1 ]; then res="$res $p:DETECTED"; else res="$res $p:missed($rc)"; fi
   done
   echo "$h$res | $(echo "$rest" | cut -c1-90)"
-  git -C /repo checkout -- .
+  git -C $WT checkout -q -- .
+  git -C $WT clean -fdq
 done
+git -C /repo worktree remove --force $WT; rm -f $WT.diff
